@@ -303,6 +303,7 @@ func (r *Run) callBuiltin(b *ssa.Builtin, args []Value, fr *frame, in *ssa.Call)
 		for i := range out {
 			out[i] = es[p.I+i].(*smt.Term)
 		}
+		r.noteAlias(Slice{A: p.A, Off: p.I, Len: n, Cap: n})
 		return Str{out}
 	case "Slice":
 		p := args[0].(Ptr)
